@@ -11,7 +11,9 @@ func init() {
 }
 
 func c02(c *q.Ctx) {
+	allK9Operations(c, ledgerK9(c))
 	inBlockDistinct(c)
+	poolReload(c)
 	zeroOutputTest(c)
 	const utxo = "bcs/ledger/xledger/state/utxo::"
 	const st = "bcs/ledger/xledger/state::"
